@@ -10,7 +10,7 @@ import (
 func (ex *Exec) initBig() { ex.initBigIntrinsics() }
 
 func (ex *Exec) evalTerm(t *Term, m map[string]*big.Int) *big.Int {
-	return ex.Ctx.Eval(t, m, nil)
+	return ex.Ctx.Eval(t, m, realUFs)
 }
 
 // evalObs renders an observed value under a model in the canonical form the native vObserve prints.
@@ -99,6 +99,14 @@ func (ex *Exec) fmtObs(st *State, t types.Type, v Value, m map[string]*big.Int) 
 		return "ptr"
 	}
 	return "?"
+}
+
+// realUFs gives the abstracted functions their real meaning when a model is evaluated concretely.
+var realUFs = map[string]func([]*big.Int) *big.Int{
+	"mul64": func(a []*big.Int) *big.Int {
+		r := new(big.Int).Mul(a[0], a[1])
+		return r.And(r, new(big.Int).SetUint64(^uint64(0)))
+	},
 }
 
 var errorIface = types.Universe.Lookup("error").Type().Underlying().(*types.Interface)
